@@ -96,7 +96,8 @@ class Batch:
 
     def open(self, env=None):
         cleanup_stale()
-        self.farm = runner.Farm(jobs(), self.engine.template_init, self.engine.run_one, env=env)
+        self.farm = runner.Farm(jobs(), self.engine.template_init, self.engine.run_one, env=env,
+                                post_fn=getattr(self.engine, 'post_run', None))
         return self
 
     def close(self):
